@@ -3,6 +3,7 @@ C13 — Reference client wire checks accept well-formed responses, flag malforme
 Property theorems only.
 -/
 import ConfModel.Lemmas.WireChecks
+import ConfModel.Lemmas.ConnectJson
 import ConfModel.Generated.C13Facts
 namespace ConfModel.Props.C13
 open ConfModel.WireChecks ConfModel.WireChecksSpec
@@ -407,5 +408,361 @@ example :
     mustFlagStatus (fun _ => .invalid) h =
       [[.multiStatus], [.msg .hexExpected, .msg .unescaped, .msg .incomplete], [.detailsBadBase64]] ∧
     checkGRPCStatus (fun _ => .invalid) h = [.multiStatus, .msg .incomplete, .detailsBadBase64] := by decide
+
+/-! ## Connect JSON: `examineConnectError`, `examineConnectErrorDetail`, `examineConnectEndStream`
+
+At the level of a parsed document in which duplicate keys are representable
+(`Model/ConnectJson.lean`); `encoding/json` syntax errors are outside (opaque class), the
+protojson comparison of a detail's `debug` member is an oracle `dbg`. -/
+
+section ConnectJSON
+open ConfModel.ConnectJson ConfModel.ConnectJsonSpec
+
+/-! ### tables of the code, regenerated on every run -/
+
+/-- `connect.Code(1..16).String()` are the model's code names; `Code(0)` and `Code(17)` are not among them -/
+theorem connectCodeNames_table :
+    Generated.C13.connectCodeNames.map bs = codeNames ∧
+    ∀ s ∈ Generated.C13.connectCodeOutside, codeNames.contains (bs s) = false := by decide
+
+set_option maxRecDepth 100000 in
+/-- `protoreflect.FullName.IsValid` on every one-byte name and on `"a"` followed by every byte -/
+theorem fullName_tables :
+    Generated.C13.fullNameFirstTable = (List.range 256).map (fun n => validFullName [UInt8.ofNat n]) ∧
+    Generated.C13.fullNameRestTable = (List.range 256).map (fun n => validFullName [97, UInt8.ofNat n]) := by
+  decide
+
+set_option maxRecDepth 100000 in
+/-- `base64.RawStdEncoding.DecodeString` on every doubled byte and on `"QQ"` followed by every byte
+(alphabet, CR / LF skipping, `=` rejected) -/
+theorem rawStd_tables :
+    Generated.C13.rawStdPairTable =
+      (List.range 256).map (fun n => (rawStdDecode [UInt8.ofNat n, UInt8.ofNat n]).isSome) ∧
+    Generated.C13.rawStdThirdTable =
+      (List.range 256).map (fun n => (rawStdDecode [81, 81, UInt8.ofNat n]).isSome) := by
+  decide
+
+/-! ### well-formed documents yield no feedback -/
+
+/-- The JSON value connect-go's error writer produces for any code 1..16, any message and any
+details (valid type names; a `debug` rendering, where there is one, that has no duplicate keys
+and agrees with the value) yields no feedback. -/
+theorem own_connect_error_clean (dbg : DebugOracle) (code : Nat) (msg : Bytes) (details : List Detail)
+    (hc : 1 ≤ code ∧ code ≤ 16) (hd : detailsFine dbg 0 details = true) :
+    examineConnectError dbg (encodeError code msg details) = [] :=
+  (error_silent_iff dbg _).mpr (encodeError_ok dbg code msg details hc.1 hc.2 hd)
+
+/-- non-vacuity: an error with message and two details, one with a debug rendering -/
+example :
+    let dbg : DebugOracle := fun _ _ _ => none
+    let details : List Detail := [⟨bs "google.protobuf.Empty", [], none⟩,
+      ⟨bs "a.B", [10, 1, 97], some (.obj [(bs "value", .str (bs "a"))])⟩]
+    (1 ≤ 13 ∧ 13 ≤ 16) ∧ detailsFine dbg 0 details = true ∧
+    examineConnectError dbg (encodeError 13 (bs "oops") details) = [] ∧
+    examineConnectError (fun _ _ _ => some .mismatch) (encodeError 13 (bs "oops") details)
+      = [.dDebug .mismatch] := by decide
+
+/-- The end-of-stream message connect-go writes - with or without an error as above, with any
+metadata map of valid field names and values - yields no feedback. -/
+theorem own_connect_end_stream_clean (dbg : DebugOracle) (err : Option (Nat × Bytes × List Detail))
+    (md : List (Bytes × List Bytes))
+    (herr : ∀ code msg details, err = some (code, msg, details) →
+      1 ≤ code ∧ code ≤ 16 ∧ detailsFine dbg 0 details = true)
+    (hmd : metadataFine md = true) :
+    examineConnectEndStream dbg (encodeEndStream err md) = [] :=
+  (end_silent_iff dbg _).mpr (encodeEndStream_ok dbg err md herr hmd)
+
+example :
+    let dbg : DebugOracle := fun _ _ _ => none
+    let md : List (Bytes × List Bytes) := [(bs "X-Custom", [bs "a b", bs ""]), (bs "x-other", [])]
+    metadataFine md = true ∧
+    examineConnectEndStream dbg (encodeEndStream (some (5, [], [⟨bs "a.B", [1], none⟩])) md) = [] ∧
+    examineConnectEndStream dbg (encodeEndStream none md) = [] ∧
+    examineConnectEndStream dbg (encodeEndStream none [(bs "bad name", [[0]])]) = [.sMetaName, .sMetaValue] := by
+  decide
+
+/-- `examineConnectError` is silent on exactly the well-formed Connect errors: an object without
+duplicate keys at any depth whose members are `code` (a code name), optionally `message` (a
+string) and `details` (an array of objects with `type`, unpadded-base64 `value` and optionally an
+agreeing `debug`) and nothing else. -/
+theorem connect_error_silent_iff_wellformed (dbg : DebugOracle) (doc : Json) :
+    examineConnectError dbg doc = [] ↔ errorOK dbg doc = true := error_silent_iff dbg doc
+
+/-- `examineConnectEndStream` is silent on exactly the well-formed end-of-stream messages. -/
+theorem connect_end_stream_silent_iff_wellformed (dbg : DebugOracle) (doc : Json) :
+    examineConnectEndStream dbg doc = [] ↔ endStreamOK dbg doc = true := end_silent_iff dbg doc
+
+/-! ### every malformation the checks name is reported -/
+
+/-- Each demand of `mustFlagError` - bad or missing `code`, unknown key, duplicate key at any
+depth, wrongly typed member, and for every detail: unknown key, missing / non-string / invalid
+`type`, missing / non-string / not-unpadded-base64 `value` - is met by the feedback (the
+alternatives are the three messages of the generic layer at which `examineJSON` stops). -/
+theorem connect_error_malformation_flagged (dbg : DebugOracle) (doc : Json) :
+    ∀ alts ∈ mustFlagError doc, ∃ f ∈ alts, f ∈ examineConnectError dbg doc := error_demands dbg doc
+
+/-- Each demand of `mustFlagEndStream` - unknown key, duplicate key at any depth, `error` or
+`metadata` that is not an object, invalid metadata name, metadata entry that is not an array,
+non-string or invalid metadata value, and every malformation of the enclosed error - is met. -/
+theorem connect_end_stream_malformation_flagged (dbg : DebugOracle) (doc : Json) :
+    ∀ alts ∈ mustFlagEndStream doc, ∃ f ∈ alts, f ∈ examineConnectEndStream dbg doc := end_demands dbg doc
+
+/-- …in the form the correspondence check evaluates on the implementation's output. -/
+theorem connect_error_spec (dbg : DebugOracle) (doc : Json) :
+    errorHolds dbg doc (examineConnectError dbg doc) = true := by
+  unfold errorHolds demandsMet
+  simp only [Bool.and_eq_true, beq_iff_eq, List.all_eq_true, List.any_eq_true, List.contains_iff_mem]
+  refine ⟨?_, connect_error_malformation_flagged dbg doc⟩
+  cases h : errorOK dbg doc with
+  | true => simp [(error_silent_iff dbg doc).mpr h]
+  | false =>
+    have : examineConnectError dbg doc ≠ [] := fun he => by
+      rw [(error_silent_iff dbg doc).mp he] at h; cases h
+    cases hx : examineConnectError dbg doc with
+    | nil => exact absurd hx this
+    | cons a t => rfl
+
+/-- The property's predicate holds of `examineConnectEndStream`'s output on every document. -/
+theorem connect_end_stream_spec (dbg : DebugOracle) (doc : Json) :
+    endStreamHolds dbg doc (examineConnectEndStream dbg doc) = true := by
+  unfold endStreamHolds demandsMet
+  simp only [Bool.and_eq_true, beq_iff_eq, List.all_eq_true, List.any_eq_true, List.contains_iff_mem]
+  refine ⟨?_, connect_end_stream_malformation_flagged dbg doc⟩
+  cases h : endStreamOK dbg doc with
+  | true => simp [(end_silent_iff dbg doc).mpr h]
+  | false =>
+    have : examineConnectEndStream dbg doc ≠ [] := fun he => by
+      rw [(end_silent_iff dbg doc).mp he] at h; cases h
+    cases hx : examineConnectEndStream dbg doc with
+    | nil => exact absurd hx this
+    | cons a t => rfl
+
+/-! ### the classes by name
+
+For an object that passes the generic layer (`passesJSON`: it decodes into the struct and has no
+duplicate key) the class itself is reported, not an alternative. -/
+
+/-- duplicate key at any depth: a document that decodes into the struct but has two equal keys
+in some object, however deeply nested, gets exactly that message from each examiner -/
+theorem json_duplicate_key_flagged (dbg : DebugOracle) (fs : Fields) (hd : dupFree (.obj fs) = false) :
+    (fs.all (fun kv => errorFieldOK kv.1 kv.2) = true → examineConnectError dbg (.obj fs) = [.dupKey]) ∧
+    (fs.all (fun kv => endFieldOK kv.1 kv.2) = true → examineConnectEndStream dbg (.obj fs) = [.dupKey]) ∧
+    (fs.all (fun kv => detailFieldOK kv.1 kv.2) = true → ∀ i, examineDetail dbg i (.obj fs) = [.dupKey]) := by
+  refine ⟨fun ht => ?_, fun ht => ?_, fun ht i => ?_⟩
+  · unfold examineConnectError; rw [dup_flagged ht hd]
+  · unfold examineConnectEndStream; rw [dup_flagged ht hd]
+  · unfold examineDetail; rw [dup_flagged ht hd]
+
+/-- non-vacuity: a duplicate three levels down, inside a detail's `debug` member -/
+example :
+    let doc : Fields := [(bs "code", .str (bs "internal")), (bs "details", .arr [.obj [(bs "type", .str (bs "a.B")),
+      (bs "value", .str (bs "QQ")), (bs "debug", .obj [(bs "x", .arr [.obj [(bs "k", .num), (bs "k", .null)]])])]])]
+    dupFree (.obj doc) = false ∧ doc.all (fun kv => errorFieldOK kv.1 kv.2) = true ∧
+    examineConnectError (fun _ _ _ => none) (.obj doc) = [.dupKey] ∧
+    examineConnectEndStream (fun _ _ _ => none) (.obj [(bs "error", .obj doc)]) = [.dupKey] := by decide
+
+/-- missing `code` -/
+theorem json_missing_code_flagged (dbg : DebugOracle) (fs : Fields) (hp : passesJSON errorFieldOK fs = true)
+    (h : hasKey fs jkCode = false) : CFb.missingCode ∈ examineConnectError dbg (.obj fs) :=
+  error_missing_code hp h
+
+/-- bad `code`: not a string (only `null` decodes into the struct), or not one of the sixteen
+code names -/
+theorem json_bad_code_flagged (dbg : DebugOracle) (fs : Fields) (hp : passesJSON errorFieldOK fs = true)
+    (v : Json) (hm : (jkCode, v) ∈ fs) :
+    (∀ c, v = .str c → codeNames.contains c = false → CFb.codeUnknown ∈ examineConnectError dbg (.obj fs)) ∧
+    ((∀ c, v ≠ .str c) → CFb.codeType ∈ examineConnectError dbg (.obj fs)) := by
+  constructor
+  · rintro c rfl hc
+    have hc' : c ∉ codeNames := by simpa using hc
+    exact error_cb_mem hp hm (by simp [errorKeyFb, hc'])
+  · intro hns
+    refine error_cb_mem hp hm ?_
+    cases v with
+    | str c => exact absurd rfl (hns c)
+    | null => simp [errorKeyFb]
+    | bool b => simp [errorKeyFb]
+    | num => simp [errorKeyFb]
+    | arr xs => simp [errorKeyFb]
+    | obj gs => simp [errorKeyFb]
+
+/-- unknown keys, at each of the three levels -/
+theorem json_unknown_key_flagged (dbg : DebugOracle) (fs : Fields) (k : Bytes) (v : Json) (hm : (k, v) ∈ fs) :
+    (passesJSON errorFieldOK fs = true → k ∉ allowedError → CFb.invalidKey ∈ examineConnectError dbg (.obj fs)) ∧
+    (passesJSON endFieldOK fs = true → k ∉ allowedEnd → CFb.sInvalidKey ∈ examineConnectEndStream dbg (.obj fs)) ∧
+    (passesJSON detailFieldOK fs = true → k ∉ allowedDetail → ∀ i, CFb.dInvalidKey ∈ examineDetail dbg i (.obj fs)) := by
+  refine ⟨fun hp hk => ?_, fun hp hk => ?_, fun hp hk i => ?_⟩
+  · exact error_cb_mem hp hm (by simp [errorKeyFb_invalid v hk])
+  · exact end_cb_mem hp hm (by simp [endKeyFb_invalid v hk])
+  · exact detail_cb_mem hp hm (by simp [detailKeyFb_invalid v hk])
+
+/-- wrongly typed `message` / `details` (only `null` decodes into the struct) -/
+theorem json_member_type_flagged (dbg : DebugOracle) (fs : Fields) (hp : passesJSON errorFieldOK fs = true) :
+    ((jkMessage, Json.null) ∈ fs → CFb.messageType ∈ examineConnectError dbg (.obj fs)) ∧
+    ((jkDetails, Json.null) ∈ fs → CFb.detailsType ∈ examineConnectError dbg (.obj fs)) := by
+  have h1 : (jkMessage == jkCode) = false := by decide
+  have h2 : (jkDetails == jkCode) = false := by decide
+  have h3 : (jkDetails == jkMessage) = false := by decide
+  exact ⟨fun hm => error_cb_mem hp hm (by simp [errorKeyFb, h1]),
+    fun hm => error_cb_mem hp hm (by simp [errorKeyFb, h2, h3])⟩
+
+/-- invalid detail `type`: missing, not a string, or not a valid protobuf full name -/
+theorem json_detail_type_flagged (dbg : DebugOracle) (i : Nat) (fs : Fields)
+    (hp : passesJSON detailFieldOK fs = true) :
+    (hasKey fs jkType = false → CFb.dMissingType ∈ examineDetail dbg i (.obj fs)) ∧
+    ((jkType, Json.null) ∈ fs → CFb.dTypeType ∈ examineDetail dbg i (.obj fs)) ∧
+    (∀ t, (jkType, Json.str t) ∈ fs → validFullName t = false → CFb.dTypeInvalid ∈ examineDetail dbg i (.obj fs)) :=
+  ⟨(detail_missing hp).1, fun hm => detail_cb_mem hp hm (by simp [detailKeyFb]),
+   fun t hm hv => detail_cb_mem hp hm (by simp [detailKeyFb, hv])⟩
+
+/-- invalid detail `value`: missing, not a string, or not unpadded standard base64 -/
+theorem json_detail_value_flagged (dbg : DebugOracle) (i : Nat) (fs : Fields)
+    (hp : passesJSON detailFieldOK fs = true) :
+    (hasKey fs jkValue = false → CFb.dMissingValue ∈ examineDetail dbg i (.obj fs)) ∧
+    ((jkValue, Json.null) ∈ fs → CFb.dValueType ∈ examineDetail dbg i (.obj fs)) ∧
+    (∀ v, (jkValue, Json.str v) ∈ fs → rawStdDecode v = none → CFb.dValueBase64 ∈ examineDetail dbg i (.obj fs)) := by
+  have h1 : (jkValue == jkType) = false := by decide
+  exact ⟨(detail_missing hp).2, fun hm => detail_cb_mem hp hm (by simp [detailKeyFb, h1]),
+   fun v hm hv => detail_cb_mem hp hm (by simp [detailKeyFb, h1, hv])⟩
+
+/-- padded or invalid base64: the padding character `=` anywhere, or any other byte outside the
+standard alphabet (CR and LF excepted, which Go's decoder skips), makes the value invalid -/
+theorem base64_padded_or_invalid_rejected (v : Bytes) :
+    ((61 : UInt8) ∈ v → rawStdDecode v = none) ∧
+    (∀ b ∈ v, Base64.decChar b = none → b.toNat ≠ 10 → b.toNat ≠ 13 → rawStdDecode v = none) :=
+  ⟨fun h => rawStd_rejects v 61 h (by decide) (by decide) (by decide), fun b hb => rawStd_rejects v b hb⟩
+
+example : rawStdDecode (bs "QQ==") = none ∧ rawStdDecode (bs "QUI=") = none ∧ rawStdDecode (bs "Q-_Q") = none ∧
+    rawStdDecode (bs "Q") = none ∧ rawStdDecode (bs "QQ") = some [65] ∧ rawStdDecode (bs "Q\nQ\r\n") = some [65] := by
+  decide
+
+/-- what `examineConnectErrorDetail` says about detail `j` is part of what `examineConnectError`
+says (the object has no unknown key, so struct decoding and callback see the same `details`) -/
+theorem json_detail_feedback_in_error (dbg : DebugOracle) (fs : Fields) (hp : passesJSON errorFieldOK fs = true)
+    (hkw : keysWithin fs allowedError = true) (xs : List Json) (hD : lookup fs jkDetails = some (.arr xs))
+    (j : Nat) (hj : j < xs.length) :
+    ∀ f ∈ examineDetail dbg j xs[j], f ∈ examineConnectError dbg (.obj fs) :=
+  detail_in_error hp hkw hD j hj
+
+/-- what `examineConnectError` says about the enclosed error is part of what
+`examineConnectEndStream` says -/
+theorem json_error_feedback_in_end_stream (dbg : DebugOracle) (fs : Fields) (hp : passesJSON endFieldOK fs = true)
+    (hkw : keysWithin fs allowedEnd = true) (efs : Fields) (hE : lookup fs jkError = some (.obj efs)) :
+    ∀ f ∈ examineConnectError dbg (.obj efs), f ∈ examineConnectEndStream dbg (.obj fs) :=
+  error_in_end hp hkw hE
+
+/-- non-vacuity of the two composition theorems: padded base64 in the second detail of the
+error of an end-of-stream message -/
+example :
+    let efs : Fields := [(bs "code", .str (bs "internal")), (bs "details", .arr [
+      .obj [(bs "type", .str (bs "a.B")), (bs "value", .str (bs "QQ"))],
+      .obj [(bs "type", .str (bs "a.B")), (bs "value", .str (bs "QQ=="))]])]
+    let fs : Fields := [(bs "error", .obj efs)]
+    passesJSON endFieldOK fs = true ∧ keysWithin fs allowedEnd = true ∧
+    passesJSON errorFieldOK efs = true ∧ keysWithin efs allowedError = true ∧
+    examineConnectEndStream (fun _ _ _ => none) (.obj fs) = [.dValueBase64] := by decide
+
+/-- bad metadata key / value in an end-of-stream message -/
+theorem json_bad_metadata_flagged (dbg : DebugOracle) (fs : Fields) (hp : passesJSON endFieldOK fs = true)
+    (ms : Fields) (hm : (jkMetadata, Json.obj ms) ∈ fs) (name : Bytes) (values : Json) (he : (name, values) ∈ ms) :
+    (validFieldName name = false → CFb.sMetaName ∈ examineConnectEndStream dbg (.obj fs)) ∧
+    (∀ vs s, values = .arr vs → Json.str s ∈ vs → validFieldValue s = false →
+      CFb.sMetaValue ∈ examineConnectEndStream dbg (.obj fs)) ∧
+    ((∀ vs, values ≠ .arr vs) → CFb.sMetaArray ∈ examineConnectEndStream dbg (.obj fs)) ∧
+    (∀ vs, values = .arr vs → Json.null ∈ vs → CFb.sMetaValueType ∈ examineConnectEndStream dbg (.obj fs)) := by
+  have h1 : (jkMetadata == jkError) = false := by decide
+  have key : ∀ f, f ∈ metaEntryFb name values → f ∈ examineConnectEndStream dbg (.obj fs) := fun f hf =>
+    end_cb_mem hp hm (by
+      simp only [endKeyFb, h1, Bool.false_eq_true, if_false, beq_self_eq_true, if_true, List.mem_flatMap]
+      exact ⟨(name, values), he, hf⟩)
+  refine ⟨fun hn => key _ (by simp [metaEntryFb, hn]), ?_, ?_, ?_⟩
+  · rintro vs s rfl hs hv
+    refine key _ ?_
+    simp only [metaEntryFb, List.mem_append, List.mem_flatMap]
+    exact Or.inr ⟨_, hs, by simp [metaValueFb, hv]⟩
+  · intro hna
+    refine key _ ?_
+    cases values with
+    | arr vs => exact absurd rfl (hna vs)
+    | null => simp [metaEntryFb]
+    | bool b => simp [metaEntryFb]
+    | num => simp [metaEntryFb]
+    | str s => simp [metaEntryFb]
+    | obj gs => simp [metaEntryFb]
+  · rintro vs rfl hs
+    refine key _ ?_
+    simp only [metaEntryFb, List.mem_append, List.mem_flatMap]
+    exact Or.inr ⟨_, hs, by simp [metaValueFb]⟩
+
+/-- wrongly typed `error` / `metadata` member -/
+theorem json_end_stream_member_type_flagged (dbg : DebugOracle) (fs : Fields) (hp : passesJSON endFieldOK fs = true)
+    (v : Json) (hv : ∀ gs, v ≠ .obj gs) :
+    ((jkError, v) ∈ fs → CFb.sErrorType ∈ examineConnectEndStream dbg (.obj fs)) ∧
+    ((jkMetadata, v) ∈ fs → CFb.sMetadataType ∈ examineConnectEndStream dbg (.obj fs)) := by
+  have h1 : (jkMetadata == jkError) = false := by decide
+  constructor
+  · intro hm
+    refine end_cb_mem hp hm ?_
+    cases v with
+    | obj gs => exact absurd rfl (hv gs)
+    | null => simp [endKeyFb]
+    | bool b => simp [endKeyFb]
+    | num => simp [endKeyFb]
+    | str s => simp [endKeyFb]
+    | arr xs => simp [endKeyFb]
+  · intro hm
+    refine end_cb_mem hp hm ?_
+    cases v with
+    | obj gs => exact absurd rfl (hv gs)
+    | null => simp [endKeyFb, h1]
+    | bool b => simp [endKeyFb, h1]
+    | num => simp [endKeyFb, h1]
+    | str s => simp [endKeyFb, h1]
+    | arr xs => simp [endKeyFb, h1]
+
+/-- a document that is not an object: `null` is reported as such, anything else does not decode
+into the struct -/
+theorem json_not_an_object_flagged (dbg : DebugOracle) (doc : Json) (h : ∀ fs, doc ≠ .obj fs) :
+    (examineConnectError dbg doc = [.jsonNull] ∨ examineConnectError dbg doc = [.jsonType]) ∧
+    (examineConnectEndStream dbg doc = [.jsonNull] ∨ examineConnectEndStream dbg doc = [.jsonType]) := by
+  cases doc with
+  | obj fs => exact absurd rfl (h fs)
+  | null => exact ⟨Or.inl rfl, Or.inl rfl⟩
+  | bool b => exact ⟨Or.inr rfl, Or.inr rfl⟩
+  | num => exact ⟨Or.inr rfl, Or.inr rfl⟩
+  | str s => exact ⟨Or.inr rfl, Or.inr rfl⟩
+  | arr xs => exact ⟨Or.inr rfl, Or.inr rfl⟩
+
+/-! ### non-vacuity of the hypotheses and of the declarative side -/
+
+example :
+    let noDbg : DebugOracle := fun _ _ _ => none
+    -- missing code, unknown key, null message
+    let fs : Fields := [(bs "message", .null), (bs "Code", .null), (bs "x", .num)]
+    passesJSON errorFieldOK fs = true ∧ hasKey fs jkCode = false ∧
+    examineConnectError noDbg (.obj fs) = [.invalidKey, .messageType, .invalidKey, .missingCode] ∧
+    mustFlagError (.obj fs) = [orGeneric .invalidKey, orGeneric .missingCode, orGeneric .messageType] ∧
+    errorOK noDbg (.obj fs) = false := by decide
+
+example :
+    let noDbg : DebugOracle := fun _ _ _ => none
+    -- a detail with an upper-case key, an invalid type name, a missing value
+    let ds : Fields := [(bs "type", .str (bs "9a")), (bs "VALUE", .str (bs "QQ")), (bs "debug", .num)]
+    passesJSON detailFieldOK ds = true ∧
+    examineDetail noDbg 0 (.obj ds) = [.dInvalidKey, .dTypeInvalid, .dMissingValue] ∧
+    mustFlagDetail (.obj ds) = [orGeneric .dInvalidKey, orGeneric .dTypeInvalid, orGeneric .dMissingValue] ∧
+    -- struct decoding matches keys case-insensitively: a number there is a type error
+    examineDetail noDbg 0 (.obj [(bs "VALUE", .num)]) = [.jsonType] := by decide
+
+example :
+    let noDbg : DebugOracle := fun _ _ _ => none
+    let fs : Fields := [(bs "metadata", .obj [(bs "x-a", .arr [.str (bs "v"), .null]), (bs "", .null)]),
+      (bs "error", .null)]
+    passesJSON endFieldOK fs = true ∧
+    examineConnectEndStream noDbg (.obj fs) = [.sErrorType, .sMetaValueType, .sMetaName, .sMetaArray] ∧
+    endStreamOK noDbg (.obj fs) = false ∧
+    endStreamOK noDbg (.obj [(bs "metadata", .obj [(bs "x-a", .arr [.str (bs "v")])])]) = true := by decide
+
+end ConnectJSON
 
 end ConfModel.Props.C13
